@@ -84,6 +84,14 @@ def make_case(rng, kind):
                 if encode.fits(fmt, c):
                     reacs.append(c)
                     ncl += 1
+        if kind == "default_lists" or rng.random() < 0.5:
+            # an excited atom next to the ground-state atom: two atomic species of one element
+            for res, prs in ((["H*"], ["H"]), (["H", "H"], ["H*", "H"])):
+                c = {"reactants": res, "products": prs, "idx": len(reacs) + 1, "alpha": 1.5, "beta": 0.0, "gamma": 0.0, "tmin": -9999.0, "tmax": 9999.0, "formula": 3, "code": "NN", "pseudo": None}
+                if encode.fits(fmt, c):
+                    reacs.insert(len(reacs) - ncl, c)          # before the closing reactions, which stay last
+            for j_, r_ in enumerate(reacs):
+                r_["idx"] = j_ + 1
         d["closing_lines"] = ncl
         d["lines"] = {f"net.{fmt}": [encode.LINE[fmt](r) for r in reacs]}
         d["formats"] = [fmt]
